@@ -3,6 +3,7 @@ Sequence-level lemmas for C19: the scanning loop over a text made of self-lexing
 separated by blanks/newlines or by nothing where `need_space` says nothing is needed.
 -/
 import ChibiVerif.Lemmas.LexLemmas
+import ChibiVerif.Model.PrintTokens
 
 namespace ChibiVerif.Lex
 open ChibiVerif.LexChar ChibiVerif.Gen.Lex
@@ -105,5 +106,209 @@ theorem lexLoop_blank (w : List Nat) (hw : isBlank w = true) : ∀ (n : Nat) (s 
     have hw' : isBlank w = true := by simpa [isBlank] using hw.2
     rw [List.length_cons, ← Nat.add_assoc, List.cons_append, lexLoop, lexStep_blank r _ _ _ hw.1]
     exact ih hw' n s _
+
+/-! ### texts made of separators and self-lexing spellings -/
+
+/-- (separator written before the spelling, spelling) -/
+abbrev Item := List Nat × List Nat
+
+def render : List Item → List Nat
+  | [] => []
+  | it :: r => it.1 ++ it.2 ++ render r
+
+/-- every separator is blank, every spelling is self-lexing, and where the separator is empty `need_space` said
+    that none is needed -/
+def okItems : List Item → Prop
+  | [] => True
+  | it :: r => isBlank it.1 = true ∧ selfLexing it.2 = true ∧
+      (match r with
+        | [] => True
+        | it2 :: _ => it2.1 = [] → needSpace it.2 it2.2 = false) ∧ okItems r
+
+/-- the tokens `tokenize` produces for such a text, started with the flags `f` -/
+def tokensOf (f : Bool × Bool) : List Item → List Tok
+  | [] => []
+  | it :: r => ⟨kindOf it.2, it.2, (blankFlags it.1 f).1, (blankFlags it.1 f).2⟩ :: tokensOf (false, false) r
+
+theorem lexLoop_items (items : List Item) : ∀ (w : List Nat) (f : Bool × Bool),
+    okItems items → isBlank w = true →
+    ∃ n, n ≤ (render items ++ w).length + 1 ∧
+      lexLoop n (render items ++ w) f.1 f.2 = .ok (tokensOf f items) := by
+  induction items with
+  | nil =>
+    intro w f _ hw
+    refine ⟨1 + w.length, by simp [render]; omega, ?_⟩
+    have := lexLoop_blank w hw 1 [] f
+    rw [List.append_nil] at this
+    simp only [render, List.nil_append, tokensOf]
+    rw [this]
+    rfl
+  | cons it r ih =>
+    intro w f hok hw
+    obtain ⟨hs, ha, hnext, hr⟩ := hok
+    obtain ⟨nR, hnR, hR⟩ := ih w (false, false) hr hw
+    have hfuse : ∀ c a', it.2 = c :: a' → noFuse c a' (render r ++ w) := by
+      intro c a' hca
+      cases r with
+      | nil =>
+        cases w with
+        | nil => exact noFuse_nil c a'
+        | cons x w' =>
+          simp only [isBlank, List.all_cons, Bool.and_eq_true, Bool.or_eq_true, beq_iff_eq] at hw
+          exact noFuse_blank c a' x _ hw.1
+      | cons it2 r' =>
+        obtain ⟨hs2, hb, _, _⟩ := hr
+        simp only at hnext
+        cases hs2e : it2.1 with
+        | nil =>
+          obtain ⟨cb, b', hb', _⟩ := selfLexing_step it2.2 hb
+          have hns := hnext hs2e
+          rw [hca, hb'] at hns
+          simp only [render, hs2e, List.nil_append, hb', List.cons_append, List.append_assoc]
+          exact noFuse_of_needSpace c a' cb b' _ hns
+        | cons x s2' =>
+          rw [hs2e] at hs2
+          simp only [isBlank, List.all_cons, Bool.and_eq_true, Bool.or_eq_true, beq_iff_eq] at hs2
+          simp only [render, hs2e, List.cons_append, List.append_assoc]
+          exact noFuse_blank c a' x _ hs2.1
+    obtain ⟨c, a', hca, _⟩ := selfLexing_step it.2 ha
+    refine ⟨(nR + 1) + it.1.length, ?_, ?_⟩
+    · simp only [render, List.length_append] at hnR ⊢
+      have : it.2.length ≥ 1 := by rw [hca]; simp
+      omega
+    · have hb := lexLoop_blank it.1 hs (nR + 1) (it.2 ++ (render r ++ w)) f
+      simp only [render, List.append_assoc]
+      rw [hb, lexLoop, selfLexing_append it.2 (render r ++ w) ha hfuse]
+      simp only
+      rw [hR]
+      rfl
+
+/-- `tokenize` on a text of self-lexing spellings, separated by blanks or by nothing where `need_space` allows it,
+    followed by blanks: exactly those spellings, with the flags the separators determine -/
+theorem lex_items (items : List Item) (w : List Nat) (hok : okItems items) (hw : isBlank w = true) :
+    lex (render items ++ w) = .ok (tokensOf (true, false) items) := by
+  obtain ⟨n, hn, h⟩ := lexLoop_items items w (true, false) hok hw
+  exact lexLoop_mono n _ _ _ _ _ h hn
+
+theorem tokensOf_text (f : Bool × Bool) (items : List Item) :
+    (tokensOf f items).map (·.text) = items.map (·.2) := by
+  induction items generalizing f with
+  | nil => rfl
+  | cons it r ih => simp [tokensOf, ih]
+
+/-! ### `print_tokens` writes such a text -/
+
+def itemsOf (prev : Option Tok) : List Tok → List Item
+  | [] => []
+  | t :: ts => (sepBefore prev t, t.text) :: itemsOf (some t) ts
+
+theorem printFrom_render (prev : Option Tok) (ts : List Tok) :
+    printFrom prev ts = render (itemsOf prev ts) ++ [10] := by
+  induction ts generalizing prev with
+  | nil => rfl
+  | cons t ts ih => simp [printFrom, itemsOf, render, ih]
+
+theorem sepBefore_blank (prev : Option Tok) (t : Tok) : isBlank (sepBefore prev t) = true := by
+  unfold sepBefore
+  split
+  · rfl
+  · split
+    · rfl
+    · cases prev with
+      | none => rfl
+      | some p => simp only; split <;> rfl
+
+theorem sepBefore_nil (p t : Tok) (h : sepBefore (some p) t = []) : needSpace p.text t.text = false := by
+  unfold sepBefore at h
+  cases hb : t.atBol <;> cases hs : t.hasSpace <;> cases hn : needSpace p.text t.text <;>
+    simp [hb, hs, hn] at h ⊢
+
+theorem okItems_itemsOf (ts : List Tok) (h : ∀ t ∈ ts, selfLexing t.text = true) :
+    ∀ prev, okItems (itemsOf prev ts) := by
+  induction ts with
+  | nil => intro prev; trivial
+  | cons t ts ih =>
+    intro prev
+    refine ⟨sepBefore_blank prev t, h t (List.mem_cons_self ..), ?_,
+      ih (fun x hx => h x (List.mem_cons_of_mem _ hx)) (some t)⟩
+    cases ts with
+    | nil => trivial
+    | cons t2 ts' => exact fun h0 => sepBefore_nil t t2 h0
+
+/-- the token list a second `tokenize` reads from the printed text -/
+def relexed (ts : List Tok) : List Tok := tokensOf (true, false) (itemsOf none ts)
+
+theorem lex_printTokens (ts : List Tok) (h : ∀ t ∈ ts, selfLexing t.text = true) :
+    lex (printTokens ts) = .ok (relexed ts) := by
+  unfold printTokens relexed
+  rw [printFrom_render]
+  exact lex_items _ [10] (okItems_itemsOf ts h none) rfl
+
+theorem relexed_text (ts : List Tok) : (relexed ts).map (·.text) = ts.map (·.text) := by
+  unfold relexed
+  rw [tokensOf_text]
+  generalize (none : Option Tok) = prev
+  induction ts generalizing prev with
+  | nil => rfl
+  | cons t ts ih => simp [itemsOf, ih]
+
+/-- the flags the scanner has when it reaches the token after `prev` -/
+def startFlags (prev : Option Tok) : Bool × Bool := if prev.isSome then (false, false) else (true, false)
+
+/-- re-reading the separator reproduces the decision of `print_tokens` -/
+theorem sepBefore_relex (prev prev' : Option Tok) (t : Tok) (k : Kind)
+    (hp : prev'.map (·.text) = prev.map (·.text))
+    (hfirst : prev = none → t.atBol = true) :
+    sepBefore prev' ⟨k, t.text, (blankFlags (sepBefore prev t) (startFlags prev)).1,
+      (blankFlags (sepBefore prev t) (startFlags prev)).2⟩ = sepBefore prev t ∧
+    (blankFlags (sepBefore prev t) (startFlags prev)).1 = t.atBol := by
+  cases prev with
+  | none =>
+    cases prev' with
+    | some p' => simp at hp
+    | none =>
+      have hb := hfirst rfl
+      simp [sepBefore, startFlags, blankFlags, hb]
+  | some p =>
+    cases prev' with
+    | none => simp at hp
+    | some p' =>
+      simp only [Option.map_some, Option.some.injEq] at hp
+      cases hb : t.atBol <;> cases hs : t.hasSpace <;> cases hn : needSpace p.text t.text <;>
+        simp [sepBefore, startFlags, blankFlags, hb, hs, hn, hp]
+
+theorem printFrom_relex (ts : List Tok) : ∀ (prev prev' : Option Tok),
+    prev'.map (·.text) = prev.map (·.text) →
+    (prev = none → ∀ t ∈ ts.head?, t.atBol = true) →
+    printFrom prev' (tokensOf (startFlags prev) (itemsOf prev ts)) = printFrom prev ts ∧
+    (tokensOf (startFlags prev) (itemsOf prev ts)).map (·.atBol) = ts.map (·.atBol) := by
+  induction ts with
+  | nil => intro prev prev' _ _; exact ⟨rfl, rfl⟩
+  | cons t ts ih =>
+    intro prev prev' hp hfirst
+    have hsep := sepBefore_relex prev prev' t (kindOf t.text) hp (fun e => hfirst e t rfl)
+    have hi := ih (some t) (some ⟨kindOf t.text, t.text, (blankFlags (sepBefore prev t) (startFlags prev)).1,
+      (blankFlags (sepBefore prev t) (startFlags prev)).2⟩) rfl (fun e => by cases e)
+    simp only [itemsOf, tokensOf, printFrom, List.map_cons]
+    have hsf : startFlags (some t) = (false, false) := rfl
+    rw [hsf] at hi
+    rw [hsep.1, hi.1, hi.2, hsep.2]
+    exact ⟨rfl, rfl⟩
+
+theorem all_congr_of_maps {p : Tok → Bool} (q : List Nat → Bool → Bool) (hp : ∀ t, p t = q t.text t.atBol) :
+    ∀ (us ts : List Tok), us.map (·.text) = ts.map (·.text) → us.map (·.atBol) = ts.map (·.atBol) →
+      us.all p = ts.all p := by
+  intro us
+  induction us with
+  | nil => intro ts h1 _; cases ts with
+    | nil => rfl
+    | cons t ts => simp at h1
+  | cons u us ih =>
+    intro ts h1 h2
+    cases ts with
+    | nil => simp at h1
+    | cons t ts =>
+      simp only [List.map_cons, List.cons.injEq] at h1 h2
+      simp only [List.all_cons, hp, h1.1, h2.1, ih ts h1.2 h2.2]
 
 end ChibiVerif.Lex
